@@ -25,7 +25,12 @@ pub fn strategy() -> BoxedStrategy<Case> {
         prop::sample::select(vec![0.1, 1.0, 5.0]),
         prop::sample::select(vec![1e-6, 1e-3]),
     )
-        .prop_map(|(mut schema, q, eps, delta)| {
+        .prop_map(|(mut schema, mut q, eps, delta)| {
+            // a join of two protected tables on a condition unrelated to the unit is, by design, restricted to rows of
+            // the same unit by the tracking: its result is not comparable with the original query's
+            if q.from == From_::OrdersFullJoinUsersOnKind {
+                q.from = From_::OrdersJoinUsers;
+            }
             // referential integrity holds and units are identified by data (row privacy ids are random draws, which the
             // zero-noise random source cannot make distinct)
             schema.dangling = false;
@@ -175,8 +180,8 @@ pub fn check(case: &Case, st: &mut Stats) -> Vec<Fail> {
                     (From_::Orders, 3) => &ColTy::Int(0, 1),
                     (From_::Orders, _) | (From_::OrdersJoinUsers, 0..=2) | (From_::OrdersJoinPublicViaUsers, 0..=2) => &case.schema.x,
                     (From_::OrdersJoinUsers, _) => &case.schema.a,
-                    (From_::UsersLeftJoinOrders, 0..=2) => &case.schema.x,
-                    (From_::UsersLeftJoinOrders, _) => &case.schema.a,
+                    (From_::UsersLeftJoinOrders, 0..=2) | (From_::OrdersFullJoinUsersOnKind, 0..=2) => &case.schema.x,
+                    (From_::UsersLeftJoinOrders, _) | (From_::OrdersFullJoinUsersOnKind, _) => &case.schema.a,
                     (From_::OrdersJoinPublicViaUsers, _) => &ColTy::Int(0, 10),
                     (From_::Items, _) | (From_::ItemsJoinOrders, 0..=2) => &case.schema.y,
                     (From_::ItemsJoinOrders, _) => &case.schema.x,
